@@ -71,6 +71,11 @@ func (opts *CompileOptions) Compile(source string) (string, error) {
 			if err := writeExpressionMaybeParen(ctx, sb, stmt.X); err != nil {
 				return "", err
 			}
+			if isSignedExpr(stmt.X) {
+				// The value is substituted textually and must stay one operand.
+				scope[stmt.Name.Name] = "(" + sb.String() + ")"
+				continue
+			}
 			scope[stmt.Name.Name] = sb.String()
 		default:
 			return "", &compileError{
